@@ -1,6 +1,8 @@
 (* C10 — witnesses authorise exactly this transaction.
    Statements only; model and specification: PyC.Witness, proofs: PyC.WitnessProofs.
-   Reading guide: [Ledger.required_key_hashes] is the UTXOW requirement over a transaction description;
+   Reading guide: [Ledger.required_key_hashes] is the UTXOW requirement over a transaction description (incl. the key
+   leaves of native scripts that the transaction needs and finds in a reference / spent output instead of the
+   witness set); SH is the script-hash function (arbitrary: nothing is assumed about it);
    [builder_required], [witness_count], [fake_vkey_witnesses], [build_and_sign_witnesses], [ext_sign_model]
    model pycardano (txbuilder.py, key.py, witness.py, crypto/bip32.py).  External primitives are the
    universally quantified functions at the head of each statement (closed Sections): nothing is assumed about
@@ -13,43 +15,79 @@ Open Scope N_scope.
 
 (* Every key hash the ledger requires for the transaction a builder emits is in the builder's required set
    (inputs, collateral, required signers, native-script key leaves through all/any/n-of-k — of the field and of
-   scripts attached through add_*_script —, the credentials of the 16 witness-needing certificate kinds incl.
-   pool operator AND owners, key reward accounts, key voters); conversely the builder asks for nothing else
-   except the key of a legacy StakeRegistration (documented over-inclusion). *)
-Theorem C10_required_complete : forall (b : bdesc) (kh : bytes),
-  (In kh (Ledger.required_key_hashes (tx_of b)) -> In kh (builder_required b))
-  /\ (In kh (builder_required b) ->
-        In kh (Ledger.required_key_hashes (tx_of b)) \/ In kh (legacy_registration_keys b)).
+   scripts attached through add_script_input / add_*_script, whether the script travels in the witness set, in a
+   separate reference UTxO, or in the spent UTxO itself —, the credentials of the 16 witness-needing certificate
+   kinds incl. pool operator AND owners, key reward accounts, key voters); conversely the builder asks for nothing
+   else except the key of a legacy StakeRegistration (documented over-inclusion).
+   Changed with the reference-script extension (statement otherwise as before, now for every script-hash function SH):
+   [tx_of] ships only the scripts build_witness_set keeps (all_scripts minus reference scripts minus scripts the spent
+   inputs carry) and lists the scripts of reference / spent outputs; two decidable side conditions appear, one per
+   direction: [refs_registered] (a needed native script found in a reference / spent output was handed to the builder
+   by add_script_input / add_*_script) and [refs_used] (a script kept out of the witness set is really carried by a
+   reference / spent output and serves a purpose of the transaction).  Both hold trivially without reference scripts
+   (C10_refs_conditions_trivial) and are evaluated (refs_registeredb / refs_usedb) on every generated scenario. *)
+Theorem C10_required_complete : forall (SH : nscript -> bytes) (b : bdesc) (kh : bytes),
+  (refs_registered SH b ->
+     In kh (Ledger.required_key_hashes SH (tx_of SH b)) -> In kh (builder_required b))
+  /\ (refs_used SH b -> In kh (builder_required b) ->
+        In kh (Ledger.required_key_hashes SH (tx_of SH b)) \/ In kh (legacy_registration_keys b)).
 Proof. exact required_complete_all. Qed.
 Print Assumptions C10_required_complete.
 
+(* without scripts in reference / spent outputs the side conditions hold and the statement is the former one *)
+Theorem C10_refs_conditions_trivial : forall (SH : nscript -> bytes) (b : bdesc),
+  b_reference_scripts b = [] -> b_input_scripts b = [] -> b_refin_scripts b = [] ->
+  refs_registered SH b /\ refs_used SH b.
+Proof. exact refs_conditions_trivial. Qed.
+Print Assumptions C10_refs_conditions_trivial.
+
+(* the boolean forms used on the generated scenarios decide the side conditions *)
+Theorem C10_refs_conditions_decidable : forall (SH : nscript -> bytes) (b : bdesc),
+  (refs_registeredb SH b = true -> refs_registered SH b) /\ (refs_usedb SH b = true -> refs_used SH b).
+Proof. intros SH b. split; [apply refs_registeredb_sound | apply refs_usedb_sound]. Qed.
+Print Assumptions C10_refs_conditions_decidable.
+
+(* a native script that reaches the transaction only through a reference UTxO: its key is required by the ledger
+   although the witness set ships no script (the region in which a collector over self.scripts would be wrong) *)
+Theorem C10_reference_script_keys_required :
+  exists SH b kh, refs_registered SH b /\ refs_used SH b /\ witness_scripts SH b = [] /\
+    In kh (Ledger.required_key_hashes SH (tx_of SH b)) /\ In kh (builder_required b)
+    /\ ~ In kh (flat_map ns_dfs (scripts SH b)).
+Proof. exact reference_script_keys_required. Qed.
+Print Assumptions C10_reference_script_keys_required.
+
 (* the over-inclusion is real: some builder asks for a key the ledger does not need *)
 Theorem C10_legacy_registration_overincluded :
-  exists b kh, In kh (builder_required b) /\ ~ In kh (Ledger.required_key_hashes (tx_of b)).
+  exists b kh, forall SH, refs_registered SH b /\ refs_used SH b /\
+    In kh (builder_required b) /\ ~ In kh (Ledger.required_key_hashes SH (tx_of SH b)).
 Proof. exact legacy_registration_overincluded. Qed.
 Print Assumptions C10_legacy_registration_overincluded.
 
 (* The vkey witnesses build_and_sign puts into the transaction (b = builder fields, b' = after the
    auto_required_signers step, body = serialized body, keys = the given signing keys, ordinary or extended):
    1. each is (32-byte key of a given signing key k, signature by k of H32(body)), k required or forced;
-   2. every ledger-required hash for which a key was given gets a witness;
+   2. every ledger-required hash for which a key was given gets a witness (incl. the keys of native scripts
+      supplied through reference UTxOs; side condition refs_registered);
    3. when forced, every given key gets one;
-   4. when not forced, a witness's key hash is ledger-required (or the legacy-registration over-inclusion);
+   4. when not forced, a witness's key hash is ledger-required (or the legacy-registration over-inclusion;
+      side condition refs_used);
    5. no two witnesses share a key hash, hence no duplicate [vkey, signature] entries. *)
 Theorem C10_witnesses :
-  forall (H28 H32 ord_pub : bytes -> bytes) (ord_sign : bytes -> bytes -> bytes) (ext_sign : bytes -> bytes -> bytes -> bytes)
+  forall (SH : nscript -> bytes) (H28 H32 ord_pub : bytes -> bytes) (ord_sign : bytes -> bytes -> bytes)
+         (ext_sign : bytes -> bytes -> bytes -> bytes)
          (b : bdesc) (auto : option bool) (force : bool) (keys : list skey) (body : bytes),
   Forall wf_key keys ->
-  let b' := after_auto H28 ord_pub auto keys b in
+  let b' := after_auto SH H28 ord_pub auto keys b in
   let txid := H32 body in
-  let ws := build_and_sign_witnesses H28 H32 ord_pub ord_sign ext_sign b auto force keys body in
+  let ws := build_and_sign_witnesses SH H28 H32 ord_pub ord_sign ext_sign b auto force keys body in
   (forall w, In w ws -> exists k, In k keys /\ w_vk w = vk32 ord_pub k /\ w_sig w = sign_with ord_sign ext_sign k txid
                                   /\ (force = true \/ In (key_hash H28 ord_pub k) (builder_required b')))
-  /\ (forall kh, In kh (Ledger.required_key_hashes (tx_of b')) -> (exists k, In k keys /\ key_hash H28 ord_pub k = kh) ->
+  /\ (refs_registered SH b ->
+      forall kh, In kh (Ledger.required_key_hashes SH (tx_of SH b')) -> (exists k, In k keys /\ key_hash H28 ord_pub k = kh) ->
         exists w, In w ws /\ H28 (w_vk w) = kh)
   /\ (force = true -> forall k, In k keys -> exists w, In w ws /\ H28 (w_vk w) = key_hash H28 ord_pub k)
-  /\ (force = false -> forall w, In w ws ->
-        In (H28 (w_vk w)) (Ledger.required_key_hashes (tx_of b')) \/ In (H28 (w_vk w)) (legacy_registration_keys b'))
+  /\ (refs_used SH b -> force = false -> forall w, In w ws ->
+        In (H28 (w_vk w)) (Ledger.required_key_hashes SH (tx_of SH b')) \/ In (H28 (w_vk w)) (legacy_registration_keys b'))
   /\ NoDup (map (fun w => H28 (w_vk w)) ws)
   /\ NoDup (map wit_bytes ws).
 Proof. exact build_and_sign_spec. Qed.
@@ -109,12 +147,12 @@ Theorem C10_witnesses_valid :
   smulB L = zero ->
   (forall P, length (enc_pt P) = 32%nat) ->
   (forall P, dec_pt (enc_pt P) = Some P) ->
-  forall (H28 H32 ord_pub : bytes -> bytes) (ord_sign : bytes -> bytes -> bytes),
+  forall (SH : nscript -> bytes) (H28 H32 ord_pub : bytes -> bytes) (ord_sign : bytes -> bytes -> bytes),
   (forall seed, length (ord_pub seed) = 32%nat) ->
   (forall seed m, length seed = 32%nat -> ed_verify G zero add smulB dec_pt H512 (ord_pub seed) m (ord_sign seed m)) ->
   forall (b : bdesc) (auto : option bool) (force : bool) (keys : list skey) (body : bytes),
   Forall (wf_skey G smulB enc_pt) keys ->
-  forall w, In w (build_and_sign_witnesses H28 H32 ord_pub ord_sign (ext_sign_model G smulB enc_pt H512) b auto force keys body) ->
+  forall w, In w (build_and_sign_witnesses SH H28 H32 ord_pub ord_sign (ext_sign_model G smulB enc_pt H512) b auto force keys body) ->
     length (w_vk w) = 32%nat /\ ed_verify G zero add smulB dec_pt H512 (w_vk w) (H32 body) (w_sig w).
 Proof. exact witnesses_valid. Qed.
 Print Assumptions C10_witnesses_valid.
